@@ -395,11 +395,11 @@ class Sym:
             return [(st, None)]
         if k == 'rangefor':
             return self.exec_search_loop(s, st)
-        if k == 'while' and self.concrete_loops:
+        if k == 'while':
             return self.exec_while(s, st)
-        if k == 'for' and self.concrete_loops:
+        if k == 'for':
             return self.exec_for(s, st)
-        if k in ('while', 'for', 'do', 'switch', 'try', 'otherstmt', 'break', 'continue', 'case', 'default'):
+        if k in ('do', 'switch', 'try', 'otherstmt', 'break', 'continue', 'case', 'default'):
             raise Unsupported(f'statement {k} at line {s.get("ln")}')
         # expression statement
         return [(s1, None) for s1, _v in self.ev(s, st)]
@@ -410,13 +410,16 @@ class Sym:
         work = [(st, 0)]
         while work:
             s0, n = work.pop()
-            if n > bound:
+            if n > bound * (1 if self.concrete_loops else 40):
                 raise Unsupported('loop bound exceeded')
             for s1, c in self.ev(s['c'], s0):
                 if s1.throw is not None:
                     out.append((s1, None))
                     continue
                 t = self.truth(c, s1)
+                if t is None and not self.concrete_loops:
+                    # only loops whose trip count is decided by constants are unrolled by default
+                    raise Unsupported(f'loop with a condition that depends on symbolic values at line {s.get("ln")}')
                 if t is None:
                     # undecidable: split (the caller enumerates descent decisions this way)
                     s2 = s1.fork()
